@@ -242,6 +242,11 @@ func (p *popCfg) genString() string {
 			for k := 0; k+4 < n && k < 40; k += 9 {
 				copy(b[k:], rng.Pick(r, []string{"é", "€", "<", "&", "ß"}))
 			}
+			if p.textMode == 0 && r.Chance(1, 4) {
+				// a Go string is a byte sequence: invalid UTF-8 and NUL travel unchanged in binary TTLV
+				b[r.Intn(n)] = rng.Pick(r, []byte{0xFF, 0xC0, 0x80, 0x00})
+				p.count("text.invalid-utf8")
+			}
 			p.count("text." + sizeBucket(n))
 			return string(b)
 		}
@@ -275,6 +280,11 @@ func (p *popCfg) genString() string {
 
 func (p *popCfg) genTime() time.Time {
 	r := p.r
+	if p.size > 0 && r.Chance(1, 6) {
+		// whole seconds over the full int64 range of the wire format (years far outside 1..9999)
+		p.count("date.extreme")
+		return time.Unix(rng.Pick(r, []int64{1 << 62, -(1 << 62), 1<<63 - 1, -(1 << 63), 253402300800, -62135596801, 1 << 32, -(1 << 31) - 1}), 0)
+	}
 	switch r.Intn(4) {
 	case 0:
 		return time.Unix(int64(r.Intn(2000000000)), 0)
